@@ -481,10 +481,36 @@ def model_input(files, main="m.emb"):
 
 
 # ---------------------------------------------------------------- spec oracle
+CONST_ATTRS = "fixed_size_in_bits|is_signed|is_integer|maximum_bits|addressable_unit_size"
+
+
+def narrow_key(case, out):
+    """crash site + the narrow predicate over the input under which an *open* finding is known to
+    raise there; any other input raising at the same site keeps the bare site as key and is
+    reported as a new violation."""
+    key = out["key"]
+    texts = list((case.get("files") or {"m.emb": case.get("text", "")}).values())
+    exc = out.get("exc", "")
+
+    def has(pat):
+        return any(re.search(pat, t) for t in texts)
+    if key == "crash:ir_util.py:get_attribute:AssertionError":
+        if has(r"\[is_signed:\s*(?!(true|false)\s*\])"):
+            key += ":is_signed-not-literal"
+    elif key == "crash:ir_util.py:constant_value:AssertionError":
+        if has(r"\[(%s):[^\]\n]*\b[A-Z][A-Za-z0-9]*\.[a-z_]" % CONST_ATTRS):
+            key += ":static-reference-in-constant-attribute"
+    elif key == "crash:expression_bounds.py:_compute_constraints_of_existence_function:AttributeError":
+        if "'RuntimeParameter'" in exc:
+            key += ":present-of-parameter"
+    return key
+
+
+
 def oracle(case, out):
     """case: dict(text, expect='accept'|'reject', line, rule).  Returns (why, key) or None."""
     if out["kind"] == "crashed":
-        return "uncaught exception %s" % out["exc"], out["key"]
+        return "uncaught exception %s" % out["exc"], narrow_key(case, out)
     for g in out.get("groups", []):
         if g["bad"]:
             return ("an error message carries a non-string source_file (%s): it cannot be rendered "
@@ -713,8 +739,12 @@ def run_known_findings(chk):
                 "rule": k.get("rule", "known")}
         out = real_outcome({"m.emb": k["input"]})
         verdict = oracle(case, out)
-        if verdict:
+        if verdict and verdict[1] == k["key"]:
             chk.report_known(k)
+        elif verdict:
+            # the pinned input fails, but not in the way the finding describes: a different defect
+            chk.violation("input", {"input": k["input"], "expected": "as in the open finding %s" % k["key"],
+                                    "observed": verdict[0], "rule": case["rule"]}, key=verdict[1])
 
 
 def search(chk):
